@@ -8,8 +8,9 @@ package main
 // the case (protocol error, not a verdict) when the two encoders disagree.
 //
 //	wire  :=  version marker pt seq ts ssrc  <n> csrc*  ext  payload  pad
-//	ext   :=  0 | 1 <n> item* | 2 <n> item* | 3 profile bytes
+//	ext   :=  0 | 1 <n> item* stop | 2 appbits <n> item* | 3 profile bytes
 //	item  :=  p | e id bytes
+//	stop  :=  none | some nibble bytes       (reserved id 15: ignored nibble, ignored rest of the block)
 //	pad   :=  none | some filler
 //
 //	c03.wire  wire bytes <n> q*                   => un hn re reUn <n> id* <n> obytes*
@@ -31,10 +32,14 @@ type WItem struct {
 
 // WExt describes a header extension block: Form 0 none, 1 one-byte, 2 two-byte, 3 legacy.
 type WExt struct {
-	Form    int
-	Items   []WItem
-	Profile uint16 // legacy only
-	Words   []byte // legacy only
+	Form     int
+	Items    []WItem
+	HasStop  bool   // one-byte only: a reserved-id byte follows the items ...
+	StopNib  uint8  // ... with this (ignored) low nibble ...
+	StopRest []byte // ... and these (ignored) bytes
+	Appbits  uint8  // two-byte only: low 4 bits of the profile
+	Profile  uint16 // legacy only
+	Words    []byte // legacy only
 }
 
 // WireDesc describes one RTP packet as a sender composes it.
@@ -70,6 +75,10 @@ func (e *WExt) body() []byte {
 			b = append(b, byte(int(it.ID)*16+(len(it.Data)-1)))
 			b = append(b, it.Data...)
 		}
+		if e.HasStop {
+			b = append(b, byte(15*16+int(e.StopNib)))
+			b = append(b, e.StopRest...)
+		}
 	case 2:
 		for _, it := range e.Items {
 			if it.Pad {
@@ -90,7 +99,7 @@ func (e *WExt) profile() uint16 {
 	case 1:
 		return 0xBEDE
 	case 2:
-		return 0x1000
+		return uint16(0x1000 + int(e.Appbits))
 	}
 	return e.Profile
 }
@@ -143,12 +152,22 @@ func writeExtDesc(t *Toks, e *WExt) {
 	t.Nat(e.Form)
 	switch e.Form {
 	case 1, 2:
+		if e.Form == 2 {
+			t.Nat(int(e.Appbits))
+		}
 		t.Nat(len(e.Items))
 		for _, it := range e.Items {
 			if it.Pad {
 				t.Tok("p")
 			} else {
 				t.Tok("e").Nat(int(it.ID)).Bytes(it.Data)
+			}
+		}
+		if e.Form == 1 {
+			if e.HasStop {
+				t.Some().Nat(int(e.StopNib)).Bytes(e.StopRest)
+			} else {
+				t.None()
 			}
 		}
 	case 3:
@@ -328,9 +347,25 @@ func observeView(c *Case, kind int, blk *WExt, block []byte, queries []uint8, fi
 func elem(id int, data []byte) WItem { return WItem{ID: uint8(id), Data: data} }
 func padItem() WItem                 { return WItem{Pad: true} }
 
-// genItems1 draws a one-byte item list (ids 1-14, 1-16 bytes, pads anywhere); with reserved an
-// id-15 element is inserted at a random position.
-func genItems1(r *Rand, maxElems int, pads, reserved bool) []WItem {
+// genStop draws what follows a reserved id 15: an ignored nibble and ignored bytes — nothing,
+// well-formed looking items, or garbage.
+func genStop(r *Rand, e *WExt) {
+	e.HasStop = true
+	e.StopNib = uint8(r.Intn(16))
+	switch r.Intn(4) {
+	case 0:
+		e.StopRest = nil
+	case 1:
+		e.StopRest = (&WExt{Form: 1, Items: genItems1(r, 3, true)}).body()
+	case 2:
+		e.StopRest = r.Bytes(r.Pick(1, 2, 3, 4, 5, r.Range(1, 24)))
+	default:
+		e.StopRest = make([]byte, r.Pick(1, 2, 3, 4))
+	}
+}
+
+// genItems1 draws a one-byte item list (ids 1-14, 1-16 bytes, pads anywhere).
+func genItems1(r *Rand, maxElems int, pads bool) []WItem {
 	var items []WItem
 	n := r.Pick(0, 1, 1, 2, 3, r.Intn(maxElems+1))
 	lead := func() {
@@ -346,11 +381,6 @@ func genItems1(r *Rand, maxElems int, pads, reserved bool) []WItem {
 		items = append(items, elem(id, r.Bytes(r.Pick(1, 1, 2, 3, 4, 15, 16, r.Range(1, 16)))))
 	}
 	lead()
-	if reserved {
-		at := r.Intn(len(items) + 1)
-		res := elem(15, r.Bytes(r.Pick(1, 1, 2, 16, r.Range(1, 16))))
-		items = append(items[:at], append([]WItem{res}, items[at:]...)...)
-	}
 	return items
 }
 
@@ -374,19 +404,23 @@ func genItems2(r *Rand, maxElems int, pads bool) []WItem {
 }
 
 func genLegacy(r *Rand) WExt {
-	prof := uint16(r.Pick(0, 1, 0x1234, 0xBEDF, 0xBEDD, 0x1001, 0x100F, 0x0FFF, 0xFFFF, r.Intn(65536)))
-	if prof == 0xBEDE || prof == 0x1000 {
+	prof := uint16(r.Pick(0, 1, 0x1234, 0xBEDF, 0xBEDD, 0x1010, 0x2000, 0x0FFF, 0xFFFF, r.Intn(65536)))
+	if prof == 0xBEDE || prof&0xFFF0 == 0x1000 {
 		prof = 0x1234
 	}
 	return WExt{Form: 3, Profile: prof, Words: r.Bytes(4 * r.Pick(0, 1, 2, 3, 64, r.Intn(20)))}
 }
 
-// genExt draws a block description of the given form; one-byte blocks contain a reserved id 15
-// with probability 1/8 when reservedOK (the known-finding region of c03.wire).
+// genExt draws a block description of the given form; one-byte blocks end in a reserved id 15
+// with probability 1/8 when reservedOK (the known-finding region of c03.wire).  Appbits stay 0.
 func genExt(r *Rand, form int, maxElems int, reservedOK bool) WExt {
 	switch form {
 	case 1:
-		return WExt{Form: 1, Items: genItems1(r, maxElems, r.Chance(2, 3), reservedOK && r.Chance(1, 8))}
+		e := WExt{Form: 1, Items: genItems1(r, maxElems, r.Chance(2, 3))}
+		if reservedOK && r.Chance(1, 8) {
+			genStop(r, &e)
+		}
+		return e
 	case 2:
 		return WExt{Form: 2, Items: genItems2(r, maxElems, r.Chance(2, 3))}
 	case 3:
@@ -450,16 +484,16 @@ func tagWire(c *Case, w *WireDesc) {
 	default:
 		c.Tag("ext=legacy")
 	}
-	pads, reserved, elems := false, false, 0
+	pads, reserved, elems := false, w.Ext.HasStop, 0
 	for _, it := range w.Ext.Items {
 		if it.Pad {
 			pads = true
 		} else {
 			elems++
-			if w.Ext.Form == 1 && it.ID == 15 {
-				reserved = true
-			}
 		}
+	}
+	if w.Ext.Form == 2 && w.Ext.Appbits != 0 {
+		c.Tag("appbits")
 	}
 	if pads {
 		c.Tag("pads")
@@ -501,15 +535,7 @@ func gridItems(form int, d func(n int) []byte) [][]WItem {
 				elem(9, d(9)), elem(10, d(10)), elem(11, d(11)), elem(12, d(12)), elem(13, d(13)), elem(14, d(14))},
 		}
 	}
-	if form == -1 { // reserved id 15 (known-finding region of c03.wire)
-		return [][]WItem{
-			{elem(15, d(1))},
-			{elem(1, d(1)), elem(15, d(1)), elem(2, d(5))},
-			{p, elem(15, d(3))},
-			{elem(1, d(2)), elem(15, d(16))},
-			{elem(1, d(2)), p, p, elem(15, d(1)), p, p, p},
-		}
-	}
+
 	return [][]WItem{
 		{},
 		{p, p, p, p},
@@ -525,13 +551,36 @@ func gridItems(form int, d func(n int) []byte) [][]WItem {
 	}
 }
 
-// gridReserved lists the boundary layouts with a reserved id.
+// gridReserved lists the boundary layouts with a reserved id 15 (known-finding region of c03.wire,
+// except the layouts where the id-15 byte is the last byte of the block: nothing is ignored there).
 func gridReserved(d func(n int) []byte) []WExt {
-	var out []WExt
-	for _, items := range gridItems(-1, d) {
-		out = append(out, WExt{Form: 1, Items: items})
+	p := padItem()
+	stop := func(items []WItem, nib int, rest []byte) WExt {
+		return WExt{Form: 1, Items: items, HasStop: true, StopNib: uint8(nib), StopRest: rest}
 	}
-	return out
+	wellFormedRest := (&WExt{Form: 1, Items: []WItem{elem(2, d(5))}}).body()
+	return []WExt{
+		stop(nil, 0, d(1)),                                   // F0 xx 00 00
+		stop(nil, 15, nil),                                   // FF 00 00 00
+		stop([]WItem{elem(1, d(2))}, 3, nil),                 // id-15 byte is the last byte of the block: offset right
+		stop([]WItem{p, p, p}, 0, nil),                       // the same after pads
+		stop([]WItem{elem(1, d(1))}, 0, wellFormedRest),      // DESIGN §7 row 2 shape: element, F0, more
+		stop([]WItem{elem(1, d(1))}, 0, []byte{0xBB, 0xCC, 0xDD, 0xEE, 0xFF}), // garbage behind it
+		stop([]WItem{p, elem(3, d(3))}, 7, d(16)),
+		stop([]WItem{elem(1, d(2)), p, p}, 0, []byte{0, 0, 0}),
+		stop([]WItem{elem(1, d(16)), elem(2, d(16))}, 15, d(7)),
+	}
+}
+
+// gridAppbits lists two-byte blocks with non-zero application bits (known finding c03_twobyte_appbits).
+func gridAppbits(d func(n int) []byte) []WExt {
+	p := padItem()
+	return []WExt{
+		{Form: 2, Appbits: 1, Items: []WItem{elem(1, d(1))}},
+		{Form: 2, Appbits: 15, Items: []WItem{elem(1, d(0)), p, elem(200, d(3))}},
+		{Form: 2, Appbits: 8, Items: nil},
+		{Form: 2, Appbits: 2, Items: []WItem{p, p, elem(7, d(2))}},
+	}
 }
 
 var nGridReserved = len(gridReserved(func(n int) []byte { return make([]byte, n) }))
@@ -545,7 +594,7 @@ func gridExts(d func(n int) []byte) []WExt {
 			out = append(out, WExt{Form: form, Items: items})
 		}
 	}
-	for _, prof := range []uint16{0, 0x1234, 0x1001, 0xBEDF, 0xFFFF} {
+	for _, prof := range []uint16{0, 0x1234, 0x1010, 0xBEDF, 0xFFFF} {
 		for _, nw := range []int{0, 1, 2, 64} {
 			out = append(out, WExt{Form: 3, Profile: prof, Words: d(4 * nw)})
 		}
@@ -815,7 +864,27 @@ func init() {
 		for i := 0; i < 60; i++ {
 			emit(func(c *Case) *WireDesc {
 				w := genWire(c.R, 40, false)
-				w.Ext = WExt{Form: 1, Items: genItems1(c.R, 6, c.R.Chance(2, 3), true)}
+				w.Ext = WExt{Form: 1, Items: genItems1(c.R, 6, c.R.Chance(2, 3))}
+				genStop(c.R, &w.Ext)
+				return w
+			})
+		}
+		// the other known-finding region: two-byte blocks with non-zero appbits (a few dozen)
+		for gi := 0; gi < 4; gi++ {
+			for _, padded := range []bool{false, true} {
+				gi, padded := gi, padded
+				emit(func(c *Case) *WireDesc {
+					w := genWire(c.R, 8, false)
+					w.Ext = gridAppbits(func(n int) []byte { return c.R.Bytes(n) })[gi]
+					w.HasPad, w.Filler = padded, nil
+					return w
+				})
+			}
+		}
+		for i := 0; i < 24; i++ {
+			emit(func(c *Case) *WireDesc {
+				w := genWire(c.R, 40, false)
+				w.Ext = WExt{Form: 2, Items: genItems2(c.R, 4, c.R.Bool()), Appbits: uint8(c.R.Range(1, 15))}
 				return w
 			})
 		}
@@ -913,6 +982,28 @@ func init() {
 					c.Trivial()
 				}
 				observeView(c, view, &e, e.encode(), viewQueries(c.R, &e), byte(c.R.Pick(0, 0xEE, 0xFF, int(c.R.Byte()))))
+			})
+		}
+		// known finding c03_twobyte_appbits seen through the views (a few dozen cases): the two-byte
+		// view refuses the block, the raw view takes it
+		for gi := 0; gi < 4; gi++ {
+			for _, view := range []int{2, 3, 2} {
+				gi, view := gi, view
+				x.Case(func(c *Case) {
+					e := gridAppbits(func(n int) []byte { return c.R.Bytes(n) })[gi]
+					c.Tag("view=" + formName[view])
+					c.Tag("block=twobyte-appbits")
+					observeView(c, view, &e, e.encode(), viewQueries(c.R, &e), byte(c.R.Pick(0, 0xEE)))
+				})
+			}
+		}
+		for i := 0; i < 16; i++ {
+			x.Case(func(c *Case) {
+				e := WExt{Form: 2, Items: genItems2(c.R, 4, c.R.Bool()), Appbits: uint8(c.R.Range(1, 15))}
+				view := c.R.Pick(2, 2, 3)
+				c.Tag("view=" + formName[view])
+				c.Tag("block=twobyte-appbits")
+				observeView(c, view, &e, e.encode(), viewQueries(c.R, &e), byte(c.R.Pick(0, 0xEE)))
 			})
 		}
 		// malformed blocks (no description): truncations, bit flips, random strings — only the
